@@ -152,41 +152,39 @@ def check_c(ck, repo, rule="C04.c"):
                     ck.holds(rule, g, enclosing_stmt(c), "installed value is produced by a copying call")
                 else:
                     ck.violated(rule, g, enclosing_stmt(c), f"the clone receives {src_of(v)[:50]!r} itself: original and clone share fitted state, so using one changes the other")
-    # every assignment to the returned variable builds a new object
+    # every value returned is a new object built from copies
+    from .sem import guarded_values
+
+    def fresh(x: ast.AST) -> bool:
+        if isinstance(x, ast.Call):
+            fn = ast.unparse(x.func)
+            if fn in COPY:
+                return True
+            if fn in ("list", "tuple", "dict", "set", "frozenset") and len(x.args) == 1:
+                return fresh(x.args[0])
+            return False
+        if isinstance(x, (ast.GeneratorExp, ast.ListComp, ast.SetComp)):
+            return fresh(x.elt)
+        if isinstance(x, ast.DictComp):
+            return fresh(x.value)
+        if isinstance(x, (ast.List, ast.Tuple, ast.Set)):
+            return all(fresh(e) for e in x.elts)
+        if isinstance(x, ast.IfExp):
+            return fresh(x.body) and fresh(x.orelse)
+        return False
+
     rets = [s for s in own_nodes(fi.node) if isinstance(s, ast.Return)]
     for r in rets:
-        if isinstance(r.value, ast.Name):
-            for s in own_nodes(fi.node):
-                if isinstance(s, ast.Assign) and any(isinstance(t, ast.Name) and t.id == r.value.id for t in s.targets):
-                    n += 1
-                    v = s.value
-                    fresh = False
-                    if isinstance(v, ast.Call):
-                        fn = src_of(v.func)
-                        fresh = fn in COPY or fn in ("list", "tuple", "dict")
-                    if isinstance(v, (ast.DictComp, ast.ListComp)):
-                        fresh = True
-                    if isinstance(v, ast.Name):
-                        # res = cloned, cloned = clone(est)
-                        for s2 in own_nodes(fi.node):
-                            if isinstance(s2, ast.Assign) and any(isinstance(t, ast.Name) and t.id == v.id for t in s2.targets) and isinstance(s2.value, ast.Call) and src_of(s2.value.func) in COPY:
-                                fresh = True
-                    # element expressions of comprehensions / list(...) must themselves be copies
-                    inner_ok = True
-                    for sub in ast.walk(v):
-                        if isinstance(sub, (ast.GeneratorExp, ast.ListComp)):
-                            if not (isinstance(sub.elt, ast.Call) and src_of(sub.elt.func) in COPY):
-                                inner_ok = False
-                        if isinstance(sub, ast.DictComp):
-                            if not (isinstance(sub.value, ast.Call) and src_of(sub.value.func) in COPY):
-                                inner_ok = False
-                    if fresh and inner_ok:
-                        ck.holds(rule, fi, s, "result is a new object built from copies")
-                    else:
-                        ck.violated(rule, fi, s, "the value returned may be (or contain) the original object")
-        else:
+        alts = guarded_values(repo, fi, r.value, r) if r.value is not None else []
+        for conds, x, st in alts:
             n += 1
-            ck.violated(rule, fi, r, "returns an expression that is not the freshly built result")
+            if fresh(x):
+                ck.holds(rule, fi, st if st is not r else r, "result is a new object built from copies")
+            else:
+                ck.violated(rule, fi, st if st is not r else r, f"the value returned ({ast.unparse(x)[:60]}) may be (or contain) the original object")
+        if not alts:
+            n += 1
+            ck.violated(rule, fi, r, "returns nothing")
     return n
 
 
